@@ -213,6 +213,7 @@ def numbering(case, obs):
                 fails.append(("num_events_not_a_count", f"stream {stream}: num_events={n!r}", f))
                 continue
             nxt = 1
+            top = 0  # highest seq_num emitted so far: "the emitted seq_nums are exactly 1..N"
             first = {}  # seq_num -> (id(emitter), j)
             per_exec = {}  # hook index -> events of this stream emitted by that execution so far
             bad = False
@@ -230,6 +231,7 @@ def numbering(case, obs):
                 if s == nxt:
                     first.setdefault(s, key)
                     nxt += 1
+                    top = max(top, s)
                 elif s > nxt or s < 1:
                     fails.append(
                         ("seq_gap", f"stream {stream} ({klass}): seq_num {s} emitted when {nxt} was next; emission order {[x['seq_num'] for x in evs]}", f)
@@ -254,12 +256,14 @@ def numbering(case, obs):
                         )
                         bad = True
                         break
-            if not bad and nxt - 1 != n:
+            # N is the largest emitted number: a point that was emitted, rolled back by a rewind and never re-taken
+            # because the run ended first (two points since the checkpoint, pause, resume, pause again, abort) still counts
+            if not bad and top != n:
                 fails.append(
                     (
                         "num_events_mismatch",
                         f"stream {stream} ({klass}): num_events={n} ({'key present' if stream in ne else 'key missing'}) but the "
-                        f"numbering of the emitted events ends at {nxt - 1}; emission order {[x['seq_num'] for x in evs]}",
+                        f"highest emitted seq_num is {top}; emission order {[x['seq_num'] for x in evs]}",
                         f,
                     )
                 )
